@@ -53,7 +53,7 @@ func (h *Header) MarshalBinary() (data []byte, err error) {
 }
 
 func (h *Header) UnmarshalBinary(data []byte) error {
-	if len(data) < 4 {
+	if len(data) < 8 {
 		return errors.New("The []byte is too short to unmarshel a full HelloElemHeader.")
 	}
 	h.Version = data[0]
@@ -153,13 +153,21 @@ func (h *HelloElemVersionBitmap) MarshalBinary() (data []byte, err error) {
 func (h *HelloElemVersionBitmap) UnmarshalBinary(data []byte) error {
 	length := len(data)
 	read := 0
+	if length < 4 {
+		return errors.New("The []byte is too short to unmarshal a full HelloElemVersionBitmap.")
+	}
 	if err := h.HelloElemHeader.UnmarshalBinary(data[:4]); err != nil {
 		return err
 	}
 	read += int(h.HelloElemHeader.Len())
+	// the bitmaps end where the element's own length says, not at the end of the buffer
+	if int(h.Length) < read || int(h.Length) > length {
+		return errors.New("The hello element length does not fit the []byte.")
+	}
+	length = int(h.Length)
 
 	h.Bitmaps = make([]uint32, 0)
-	for read < length {
+	for read+4 <= length {
 		h.Bitmaps = append(h.Bitmaps, binary.BigEndian.Uint32(data[read:read+4]))
 		read += 4
 	}
@@ -221,19 +229,33 @@ func (h *Hello) MarshalBinary() (data []byte, err error) {
 func (h *Hello) UnmarshalBinary(data []byte) error {
 	next := 0
 	err := h.Header.UnmarshalBinary(data[next:])
+	if err != nil {
+		return err
+	}
 	next += int(h.Header.Len())
 
 	h.Elements = make([]HelloElem, 0)
 	for next < len(data) {
 		e := NewHelloElemHeader()
-		e.UnmarshalBinary(data[next:])
+		if err = e.UnmarshalBinary(data[next:]); err != nil {
+			return err
+		}
 
 		switch e.Type {
 		case HelloElemType_VersionBitmap:
 			v := NewHelloElemVersionBitmap()
 			err = v.UnmarshalBinary(data[next:])
+			if err != nil {
+				return err
+			}
 			next += int(v.Len())
 			h.Elements = append(h.Elements, v)
+		default:
+			// unknown elements are skipped using their declared length (padded to 8 bytes)
+			if e.Length < 4 {
+				return errors.New("The hello element length is too small.")
+			}
+			next += (int(e.Length) + 7) / 8 * 8
 		}
 	}
 	return err
